@@ -12,6 +12,7 @@ Fixpoint hvJ (h : hv) : J :=
   | HStr s => JS s
   | HNone => JNone
   | HTup l => JL (JS "t" :: map hvJ l)
+  | HOther t => JL [JS "o"; JZ t]
   end.
 
 (* ulist: (op, raw list given to the constructor, other operand) *)
